@@ -58,7 +58,7 @@ class C05(PropBase):
     budgets = {"quick": 320, "thorough": 3200}
     per_file = 60
     rule = ("random ADMGs with 2..5 nodes (6 thorough) x disjoint X, Y x 0..2 source domains with random experiment sets Z_i and surrogate-outcome sets W_i; "
-            "30% of the cases have no domain at all (TRSO must then agree with ID). Non-trivial: a source-domain term appears in the answer, or the "
+            "30% of the cases have no domain at all (TRSO must then agree with ID); 30% two-domain family; 20% napkin-like chains with skip-level bidirected edges (lines 9/10). Non-trivial: a source-domain term appears in the answer, or the "
             "recursion used a topological order, or the answer is None; distinct by input")
     explanation = ("identify_target_outcomes compared with the Gallina model of transport.py (recorded topological orders replayed; population-tagged parents "
                    "compared as sets); each estimand is evaluated exactly on a family of SCMs that differ from the target exactly at the transported "
@@ -79,10 +79,14 @@ class C05(PropBase):
             cases.append({"g": {"nodes": [0, 1], "dir": [[0, 1]], "bid": [[0, 1]]}, "X": [0], "Y": [1], "domains": [{"Z": [0], "W": [1]}]})
         nmax = 5 if tier == "quick" else 6
         while len(cases) < n:
-            if rng.random() < 0.35:
+            r0 = rng.random()
+            if r0 < 0.3:
                 c = self.multi_domain_case(rng)
                 if c:
                     cases.append(c)
+                continue
+            if r0 < 0.5:
+                cases.append(self.napkin_case(rng))
                 continue
             g = GG.rand_admg(rng, 2, nmax)
             X, Y = gen_query(rng, g)
@@ -103,6 +107,23 @@ class C05(PropBase):
                         doms.append({"Z": Z, "W": W})
             cases.append({"g": g, "X": X, "Y": Y, "domains": doms})
         return cases
+
+    def napkin_case(self, rng):
+        """A directed chain with skip-level bidirected edges (napkin-like): the district of G minus X that holds the outcomes is a
+        proper part of a larger district of G, so TRSO goes through lines 9 and 10 (c-factors from the carried distribution)."""
+        n = rng.randint(4, 6)
+        order = list(range(n)); rng.shuffle(order)
+        di = [[order[i], order[i + 1]] for i in range(n - 1) if rng.random() < 0.85]
+        di += [[order[i], order[j]] for i in range(n) for j in range(i + 2, n) if rng.random() < 0.15]
+        bi = [[order[i], order[j]] for i in range(n) for j in range(i + 2, n) if rng.random() < 0.35]
+        g = {"nodes": sorted(order), "dir": di, "bid": bi}
+        y = order[-1]
+        ys = [y] + ([order[-2]] if rng.random() < 0.25 else [])
+        xs = rng.sample([v for v in order if v not in ys], rng.randint(1, 2))
+        doms = []
+        if rng.random() < 0.5:
+            doms.append({"Z": rng.sample([v for v in order if v not in ys], 1), "W": [y]})
+        return {"g": g, "X": xs, "Y": ys, "domains": doms}
 
     def multi_domain_case(self, rng):
         """Two or three target interventions, two source domains whose experiments hit different interventions, outcomes
